@@ -3,7 +3,7 @@ SPEC = dict(
     bin="c23",
     cases_quick=1600,
     cases_thorough=40000,
-    level="proof+partial",
+    level="proof",
     technique="Coq state-machine model of the action lifecycle (create / execute / close / cancel_order_if_no_position over arbitrary histories) with invariants proved by induction + differential correspondence with the real ActionState / ActionHeader transitions, the real Close::preprocess of CloseDeposit and CloseGlvShift (hand-built Anchor account structs, real Store role table), the real execution_lamports and PayExecutionFeeOperation + lifecycle oracle on the driver's outputs",
     text="Terminal states are absorbing, completion/cancellation happens exactly once, a pending action can be closed only by its owner (GLV shift: also its funder) with every escrowed token and all lamports returned, a non-owner needs the keeper role and a terminal action, and a failed execution cancels the action leaving escrow and market untouched; proved for all histories of the model.",
     level_note="Tied to real code: ActionState, ActionHeader byte-level transitions, Close::preprocess (deposit + GLV-shift override), execution_lamports, PayExecutionFeeOperation. Hand-transcribed (partial): the order of steps inside the execute_* / close_* handlers, the soft/hard failure decision of Execute*Operation::execute, escrow token movements (SPL CPIs), Anchor account constraints, transaction atomicity. GLV shift: the funder (a keeper, rent payer) may close a pending shift; the model treats the funder as that action's owner-equivalent.",
